@@ -31,6 +31,11 @@ def run(ctx):
                       "marking the job running (bg), not conditional on the recorded job status (which can be stale)")
     ctx.rule("R07-7", "the parent also calls setpgid(child, *pgid) after every fork: a later stage may run its own "
                       "setpgid(0, pgid) before the first stage has created the group (both sides must set it)")
+    ctx.rule("R07-8", "`jobs` shows the true state: a stop / continue / exit of a process that is not the awaited foreground "
+                      "child is parked in the event maps by wait_fg_job exactly as handle_sigchld does, and popped by "
+                      "try_wait_bg_jobs (the analysis of C06 R06-2)")
+    ctx.rule("R07-9", "a job is shown Stopped exactly when every live member is stopped: all_members_stopped walks pids "
+                      "(the analysis of C06 R06-5)")
     ctx.rule("R07-5", "main: every path of the Input(line) arm reaches try_wait_bg_jobs before the next read_line")
     for crate in ctx.crates:
         pairing_rule(ctx, crate)
@@ -40,6 +45,25 @@ def run(ctx):
         mask_rule(ctx, crate)
         if crate.kind == "bin":
             main_rule(ctx, crate)
+    # the job-state clauses of this property are decided by the C06 analyses; relabel their results
+    from . import c06
+    n0 = len(ctx.obligations)
+    v0 = set(ctx.violations)
+    for crate in ctx.crates:
+        c06.routing_rule(ctx, crate)
+        c06.stopped_rule(ctx, crate)
+    ren = {"R06-2": "R07-8", "R06-5": "R07-9"}
+    for o in ctx.obligations[n0:]:
+        if o["rule"] in ren:
+            if o.get("key", "").startswith(o["rule"]):
+                o["key"] = ren[o["rule"]] + o["key"][5:]
+            o["rule"] = ren[o["rule"]]
+    for k in [k for k in ctx.violations if k not in v0]:
+        v = ctx.violations.pop(k)
+        if v["rule"] in ren:
+            v["key"] = ren[v["rule"]] + v["key"][5:]
+            v["rule"] = ren[v["rule"]]
+        ctx.violations[v["key"]] = v
 
 
 def pairing_rule(ctx, crate):
